@@ -4,6 +4,22 @@
 From Vicut Require Import Base.Prelude Model.Args.
 
 Inductive gkind := GG | GV.
+Inductive optk := OJson | OTrace | OLinewise | OSerial | OTrim | OKeep | OBackup | OGln | OSilent | OInplace.
+Inductive optv := ODelim | OTempl.
+
+Definition optk_flag (k : optk) (long : bool) : text :=
+  match k with
+  | OJson => if long then T "--json" else T "-j"
+  | OTrace => T "--trace"
+  | OLinewise => T "--linewise"
+  | OSerial => T "--serial"
+  | OTrim => T "--trim-fields"
+  | OKeep => T "--keep-mode"
+  | OBackup => T "--backup"
+  | OGln => T "--global-uses-line-numbers"
+  | OSilent => T "--silent"
+  | OInplace => T "-i"
+  end.
 
 (** [long] fields choose the spelling (short flag / documented long flag). *)
 Inductive item :=
@@ -12,7 +28,9 @@ Inductive item :=
 | IMove (long : bool) (s : text)
 | INext (long : bool)
 | IRep (long : bool) (n r : text)            (* operands as written *)
-| IGlob (long : bool) (k : gkind) (pat : text) (th : list item) (el : option (list item)).
+| IGlob (long : bool) (k : gkind) (pat : text) (th : list item) (el : option (list item))
+| IOpt (k : optk) (long : bool)              (* boolean option flag (top level only) *)
+| IOptV (k : optv) (long : bool) (v : text). (* -d/--delimiter V, -t/--template V *)
 
 Definition flag (long : bool) (s l : string) : text := if long then T l else T s.
 
@@ -31,6 +49,9 @@ Fixpoint render_item (i : item) : list text :=
          | None => []
          end
       ++ [T "--end"]
+  | IOpt k l => [optk_flag k l]
+  | IOptV ODelim l v => [flag l "-d" "--delimiter"; v]
+  | IOptV OTempl l v => [flag l "-t" "--template"; v]
   end.
 Definition render (its : list item) : list text := flat_map render_item its.
 
@@ -54,8 +75,33 @@ Fixpoint denote_step (l : list cmd) (i : item) : list cmd :=
     l ++ [CGlobal (match k with GG => true | GV => false end) pat
             (fold_left denote_step th [])
             (match el with Some e => Some (fold_left denote_step e []) | None => None end)]
+  | IOpt _ _ | IOptV _ _ _ => l
   end.
 Definition denote (its : list item) : list cmd := fold_left denote_step its [].
+
+(** Option items act on the option fields of [Opts] and on nothing else. *)
+Definition opt_step (o : opts) (i : item) : opts :=
+  let '(mkOpts d t ip j tr lw tf km bk se gl si c fl) := o in
+  match i with
+  | IOpt OJson _ => mkOpts d t ip true tr lw tf km bk se gl si c fl
+  | IOpt OTrace _ => mkOpts d t ip j true lw tf km bk se gl si c fl
+  | IOpt OLinewise _ => mkOpts d t ip j tr true tf km bk se gl si c fl
+  | IOpt OSerial _ => mkOpts d t ip j tr lw tf km bk true gl si c fl
+  | IOpt OTrim _ => mkOpts d t ip j tr lw true km bk se gl si c fl
+  | IOpt OKeep _ => mkOpts d t ip j tr lw tf true bk se gl si c fl
+  | IOpt OBackup _ => mkOpts d t ip j tr lw tf km true se gl si c fl
+  | IOpt OGln _ => mkOpts d t ip j tr lw tf km bk se true si c fl
+  | IOpt OSilent _ => mkOpts d t ip j tr lw tf km bk se gl true c fl
+  | IOpt OInplace _ => mkOpts d t true j tr lw tf km bk se gl si c fl
+  | IOptV ODelim _ v => mkOpts (Some v) t ip j tr lw tf km bk se gl si c fl
+  | IOptV OTempl _ v => mkOpts d (Some v) ip j tr lw tf km bk se gl si c fl
+  | _ => o
+  end.
+
+(** What a whole command line denotes: the options in the order given, and the
+    command list of the command items in the order given. *)
+Definition denote_opts (its : list item) : opts :=
+  set_cmds (fold_left opt_step its opts0) (denote its).
 
 (** ** Textual unrolling. A group is what one already-processed item (or one
     earlier [-r] group) has become; [-r N R] replaces the last N groups by one
@@ -75,9 +121,14 @@ Fixpoint unroll_step (gs : list (list item)) (i : item) : list (list item) :=
                | Some e => Some (concat (fold_left unroll_step e []))
                | None => None
                end)]]
+  | IOpt _ _ | IOptV _ _ _ => gs
   | other => gs ++ [[other]]
   end.
-Definition unroll (its : list item) : list item := concat (fold_left unroll_step its []).
+Definition is_opt (i : item) : bool :=
+  match i with IOpt _ _ | IOptV _ _ _ => true | _ => false end.
+(** Option items are kept, in order, in front of the unrolled commands. *)
+Definition unroll (its : list item) : list item :=
+  filter is_opt its ++ concat (fold_left unroll_step its []).
 
 (** ** Flattening a command tree: a repeat group is its body written out. *)
 Fixpoint flatten1 (c : cmd) : list cmd :=
@@ -101,4 +152,6 @@ Fixpoint wf_item (top : bool) (i : item) : bool :=
   | IGlob _ _ pat th el =>
     negb (starts_dash pat) && forallb (wf_item false) th
     && match el with Some e => forallb (wf_item false) e | None => true end
+  | IOpt _ _ => top
+  | IOptV _ _ v => top && negb (starts_dash v)
   end.
